@@ -462,9 +462,11 @@ Hclose(int32 file_id)
         HGOTO_ERROR(DFE_OPENAID, FAIL);
     } /* end if */
 
-    /* version tags */
-    if ((file_rec->refcount > 0) && (file_rec->version.modified == 1))
-        HIupdate_version(file_id);
+    /* version tags: only a file that can be written gets its version element brought up to date
+       (a file opened for reading that has none keeps the flag set and is left as it is) */
+    if ((file_rec->refcount > 0) && (file_rec->version.modified == 1) && (file_rec->access & DFACC_WRITE))
+        if (HIupdate_version(file_id) == FAIL)
+            HGOTO_ERROR(DFE_INTERNAL, FAIL);
 
     /* decrease the reference count */
     if (--file_rec->refcount == 0) {
